@@ -23,7 +23,7 @@ import re
 from ..astutil import kids, strip, walk, callee_ref, render, loc, int_value
 from ..engines.induct import Poly, Facts
 from ..frontend import AnalysisBroken
-from ..vals import assert_condition
+from ..vals import assert_condition, FuncCtx
 from .. import inv
 
 ALLOCS = ("cmi_malloc", "cmi_calloc")
@@ -485,4 +485,142 @@ def check_scratch_arrays(rep, rule, m, prefix=("src/", "include/")):
                                 where=where)
                     rule.fail()
     rule.instance("subscripts decided: %d, outside the fragment (listed, not judged): %d" % (decided, undecided))
+    return decided, undecided
+
+
+# ---------------------------------------------------------------------------------------------------------------
+# fixed-size buffers
+
+def check_fixed_buffers(rep, rule, m, prefix=("src/", "include/")):
+    """Every subscript of an object of array type T[N] with a constant N, and every bounded write into it through the C
+    library (snprintf / memcpy / memmove / memset / strncpy with a byte count), stays inside the N elements.  The index or
+    count is bounded from above through literals, sizeof, `strnlen(s, K) <= K`, `x % K`, `x & mask`, single-definition
+    locals, and `for` variables with a literal or sizeof bound; anything else is undecided (listed, not judged)."""
+    decided = undecided = 0
+
+    def arr_size(t):
+        mm = re.search(r"\[(\d+)\]\s*$", t or "")
+        return int(mm.group(1)) if mm else None
+
+    def elem_size(t):
+        base = re.sub(r"\[\d+\]\s*$", "", t or "").replace("const ", "").strip()
+        return {"char": 1, "unsigned char": 1, "signed char": 1, "uint8_t": 1, "int8_t": 1, "short": 2, "uint16_t": 2, "int": 4,
+                "unsigned int": 4, "uint32_t": 4, "int32_t": 4, "float": 4, "double": 8, "uint64_t": 8, "int64_t": 8, "long": 8,
+                "unsigned long": 8, "size_t": 8}.get(base, 8 if base.endswith("*") else None)
+
+    for f in sorted(m.funcs.values(), key=lambda g: g.name):
+        if not (m.rel(f.file) or "").startswith(prefix) or f.body is None:
+            continue
+        cx = None
+
+        def ub(n, depth=0):
+            """an upper bound of the value of n, or None"""
+            n = strip(n, casts=True)
+            k = n["kind"]
+            v = int_value(n)
+            if v is not None:
+                return v
+            if k == "UnaryExprOrTypeTraitExpr":
+                t = n.get("argType") or (strip(kids(n)[0], casts=False).get("type") if kids(n) else "") or ""
+                sz, es = arr_size(t), elem_size(t)
+                if sz is not None and es is not None:
+                    return sz * es
+                es2 = elem_size(t)
+                return es2
+            if k == "DeclRefExpr" and depth < 6:
+                d = cx.single_def(n["ref"]["id"])
+                if d is not None:
+                    return ub(d, depth + 1)
+                # a for variable with a constant bound
+                for lp in inv.enclosing_chain(f, n):
+                    if lp["kind"] == "ForStmt" and kids(lp)[2].get("kind") not in (None, "Null"):
+                        c = strip(kids(lp)[2], casts=True)
+                        if c["kind"] == "BinaryOperator" and c.get("opcode") in ("<", "<="):
+                            l0 = strip(kids(c)[0], casts=True)
+                            if l0["kind"] == "DeclRefExpr" and l0["ref"]["id"] == n["ref"]["id"]:
+                                b = ub(kids(c)[1], depth + 1)
+                                if b is not None:
+                                    writes = [y for y in walk(kids(lp)[4]) if y["kind"] in ("BinaryOperator", "CompoundAssignOperator", "UnaryOperator")
+                                              and (y.get("opcode", "").endswith("=") and y.get("opcode") not in ("==", "!=", "<=", ">=") or y.get("opcode") in ("++", "--"))
+                                              and strip(kids(y)[0], casts=True).get("ref", {}).get("id") == n["ref"]["id"]]
+                                    if not writes:
+                                        return b - 1 if c["opcode"] == "<" else b
+                return None
+            if k == "CallExpr" and callee_ref(n) == "strnlen" and len(kids(n)) == 3:
+                return ub(kids(n)[2], depth + 1)
+            if k == "BinaryOperator":
+                op = n.get("opcode")
+                a, b = kids(n)
+                if op == "%":
+                    bb = ub(b, depth + 1)
+                    return None if bb is None else bb - 1
+                if op == "&":
+                    vb, va = int_value(strip(b, casts=True)), int_value(strip(a, casts=True))
+                    return vb if vb is not None else va
+                if op == "+":
+                    ua, ubb = ub(a, depth + 1), ub(b, depth + 1)
+                    return None if ua is None or ubb is None else ua + ubb
+                if op == "-":
+                    ua, vb = ub(a, depth + 1), int_value(strip(b, casts=True))
+                    return None if ua is None or vb is None else ua - vb
+                if op == "*":
+                    ua, ubb = ub(a, depth + 1), ub(b, depth + 1)
+                    return None if ua is None or ubb is None else ua * ubb
+            if k == "ConditionalOperator":
+                ua, ubb = ub(kids(n)[1], depth + 1), ub(kids(n)[2], depth + 1)
+                return None if ua is None or ubb is None else max(ua, ubb)
+            return None
+
+        def array_of(expr):
+            """(type string, rendered name) if expr denotes (decays from) an object of constant array type"""
+            e = expr
+            while e["kind"] in ("ImplicitCastExpr", "ParenExpr", "CStyleCastExpr") and kids(e):
+                e = kids(e)[0]
+            t = e.get("type") or ""
+            if e["kind"] in ("MemberExpr", "DeclRefExpr") and arr_size(t) is not None:
+                return t, render(e)
+            return None
+
+        for x in walk(f.body):
+            if x["kind"] == "ArraySubscriptExpr":
+                ao = array_of(kids(x)[0])
+                if ao is None:
+                    continue
+                cx = cx or FuncCtx(m, f)
+                N = arr_size(ao[0])
+                u = ub(kids(x)[1])
+                if u is None:
+                    undecided += 1
+                    continue
+                decided += 1
+                rule.instance("%s: %s[%s] with index <= %d in %d elements" % (f.name, ao[1], render(kids(x)[1])[:40], u, N))
+                if u <= N - 1:
+                    rule.ok()
+                else:
+                    rep.finding(rule, f.name, "buffer:%s:overrun" % ao[1].split("->")[-1].split(".")[-1],
+                                "%s subscripts %s, which has %d elements, with %s, which can be as large as %d: the access runs "
+                                "past the end of the array into the member (or object) behind it"
+                                % (f.name, ao[1], N, render(kids(x)[1])[:60], u), where=m.rel(loc(x)))
+                    rule.fail()
+            if x["kind"] == "CallExpr" and callee_ref(x) in ("snprintf", "memcpy", "memmove", "memset", "strncpy", "cmi_memcpy", "cmi_memset") and len(kids(x)) >= 4:
+                ao = array_of(kids(x)[1])
+                if ao is None:
+                    continue
+                cx = cx or FuncCtx(m, f)
+                N, es = arr_size(ao[0]), elem_size(ao[0])
+                cnt = kids(x)[2] if callee_ref(x) == "snprintf" else kids(x)[3]
+                u = ub(cnt)
+                if u is None or es is None:
+                    undecided += 1
+                    continue
+                decided += 1
+                rule.instance("%s: %s into %s with at most %d of %d bytes" % (f.name, callee_ref(x), ao[1], u, N * es))
+                if u <= N * es:
+                    rule.ok()
+                else:
+                    rep.finding(rule, f.name, "buffer:%s:overrun" % ao[1].split("->")[-1].split(".")[-1],
+                                "%s lets %s write up to %d bytes into %s, which has %d" % (f.name, callee_ref(x), u, ao[1], N * es),
+                                where=m.rel(loc(x)))
+                    rule.fail()
+    rule.instance("fixed-size buffer accesses decided: %d, outside the fragment: %d" % (decided, undecided))
     return decided, undecided
